@@ -87,6 +87,23 @@ print_structure(void *mp)
 	}
 }
 
+/*
+ * Keys are looked up and removed through pointers of every alignment (the
+ * callers pass names that sit inside parsed lines): copy the key to an address
+ * with (address % 8) == (i % 8).
+ */
+static unsigned char unaligned_area[1 << 16];
+static unsigned char *
+unaligned_copy(const unsigned char *k, size_t klen, size_t i)
+{
+	unsigned char *dst = unaligned_area + 8 + (i % 8);
+
+	if (klen + 32 > sizeof(unaligned_area))
+		return (unsigned char *)k;
+	memcpy(dst, k, klen + 1);
+	return dst;
+}
+
 static int
 key_int(const unsigned char *k, size_t len)
 {
@@ -106,6 +123,7 @@ key_int(const unsigned char *k, size_t len)
 	for (i = 0; i < nops; i++) {						\
 		const char *op = ops[i];					\
 		unsigned char *k = NULL;					\
+		unsigned char *kbase = NULL;					\
 		size_t klen = 0;						\
 		int64_t *val;							\
 		if (i > 0) putchar(' ');					\
@@ -117,12 +135,14 @@ key_int(const unsigned char *k, size_t len)
 			if (val == NULL) printf("N");				\
 			else { handle_add(val, counter); printf("P:%ld:%" PRId64, counter, *val); counter++; } \
 		} else if (is(op, "find")) {					\
-			k = arghex(op, &klen); k[klen] = '\0';			\
+			kbase = arghex(op, &klen); kbase[klen] = '\0';		\
+			k = unaligned_copy(kbase, klen, i);			\
 			val = MAP_FIND(m, KEYOF(k, klen));			\
 			if (val == NULL) printf("N");				\
 			else printf("P:%ld:%" PRId64, handle_of(val), *val);	\
 		} else if (is(op, "rm")) {					\
-			k = arghex(op, &klen); k[klen] = '\0';			\
+			kbase = arghex(op, &klen); kbase[klen] = '\0';		\
+			k = unaligned_copy(kbase, klen, i);			\
 			MAP_REMOVE(m, KEYOF(k, klen));				\
 			printf("U");						\
 		} else if (is(op, "itstart")) {					\
@@ -142,6 +162,7 @@ key_int(const unsigned char *k, size_t len)
 			printf("BAD");						\
 		}								\
 		print_shape(m);							\
+		if (kbase != NULL) { free(kbase); k = NULL; }			\
 		free(k);							\
 	}									\
 	print_structure(m);							\
